@@ -660,7 +660,6 @@ func c11Stress(b *Batch, idx int) {
 	keys := inShard("victim", writers)
 	var wg sync.WaitGroup
 	var lost, rounds, longGone int64
-	stopAt := time.Now().Add(150 * time.Millisecond)
 	var firstLoss atomic.Value
 	for w := 0; w < writers; w++ {
 		wg.Add(1)
@@ -668,10 +667,7 @@ func c11Stress(b *Batch, idx int) {
 		go func(w int) {
 			defer wg.Done()
 			k := keys[w]
-			for i := 0; time.Now().Before(stopAt) || i < 200; i++ {
-				if i > 20000 {
-					break
-				}
+			for i := 0; i < 1000; i++ { // fixed number of rounds, not a time budget
 				be.Write(cache.WithTTL(bg, -time.Hour-time.Duration(r.Intn(1000))*time.Second, false), k, "old")
 				if r.Intn(2) == 0 {
 					time.Sleep(time.Duration(r.Intn(150)) * time.Microsecond)
